@@ -24,15 +24,24 @@ def fixtures(pre: str) -> None:
     import importlib
     import os
 
-    for m in [x for x in pre.split(",") if x]:
+    rewrap = "rewrap-stdout" in pre
+    for m in [x for x in pre.split(",") if x and x != "rewrap-stdout"]:
         importlib.import_module(m)
     from . import gen, impl
 
+    if rewrap:
+        # an application that reconfigures its standard output after the library was imported (another encoding, line buffering): the object that was
+        # sys.stdout at import time is detached and unusable from then on; the library must use whatever sys.stdout is when it has something to say
+        import io
+        sys.stdout = io.TextIOWrapper(sys.stdout.detach(), encoding="utf-8", errors="backslashreplace", line_buffering=True)
     out = []
     for gpg in (True, False):
         ks = [gen.key(1), gen.key(2)]
         env = gen.sign_env(gen.envelope({"a": [1, 2.5, "é"]}), ks, gpg)
-        with impl.quiet_stdout("utf-8"):
+        env["signatures"]["junk"] = "x"                                  # something to say a diagnostic about
+        env["signatures"][gen.key(7).hex] = {"signature": "00" * 64}     # ... and an unauthorized signer
+        import contextlib
+        with (contextlib.nullcontext() if rewrap else impl.quiet_stdout("utf-8")):
             try:
                 impl.authentication.verify_signable(env, [k.hex for k in ks], 2, gpg)
                 out.append("OK")
